@@ -87,6 +87,14 @@ contract(T + "._protein_to_vote", "C06", params={"protein": "obj:ActionProtein",
                   "block-only-for-block": "(result.vote_type == VoteType.BLOCK) == (protein.action_type == 'BLOCK')",
                   "weight-from-profile": "result.weight == profile.weight * profile.reliability_score"})
 
+# the same function with a dictionary payload (the case the confidence clause is about): the reported confidence of a ballot is exactly the
+# one the voter stated -- in particular a stated 0 stays 0 (CONFIDENCE / WEIGHTED must not count it as support)
+shape("ActionProteinD", action_type="str", payload="dict:str,real", confidence="real", source_agent="opt:str", timestamp="datetime")
+contract(T + "._protein_to_vote", "C06", variant="dict-payload", params={"protein": "obj:ActionProteinD", "profile": "obj:AgentProfile"},
+         options={"opaque_any_methods": True},
+         ensures={"stated-confidence-is-reported": "implies('confidence' in protein.payload, result.confidence == protein.payload['confidence'])",
+                  "default-confidence-only-when-unstated": "implies('confidence' not in protein.payload, result.confidence == 1.0)"})
+
 contract(T + "._aggregate_votes", "C06", params={"votes": "list:obj:Vote"},
          elem_facts=VOTE_FACTS, counters=COUNTERS, counter_axioms=PARTITION, raises=[],
          inline=False, returns="obj:QuorumResult", modifies=[],
@@ -143,6 +151,24 @@ def native_replay(rep):
     import os, sys
     sys.path.insert(0, os.path.dirname(os.path.dirname(os.path.abspath(__file__))))
     from native import c06_bounded
+    if rep.get("target", "").endswith("_protein_to_vote"):
+        # the ballot conversion: every stated confidence (incl. 0) and every action type, through the real run_vote of a one-voter colony
+        import io, contextlib
+        from operon_ai.topology.quorum import QuorumSensing, VotingStrategy, VoteType
+        from operon_ai.core.types import ActionProtein
+        from operon_ai.state.metabolism import ATP_Store
+        k = 0
+        for action in ("PERMIT", "EXECUTE", "BLOCK", "DEFER", "UNKNOWN", "FAILURE"):
+            for payload, want in (({"confidence": 0}, 0.0), ({"confidence": 0.0}, 0.0), ({"confidence": 0.2}, 0.2), ({"confidence": 1}, 1.0), ({}, 1.0),
+                                  ({"other": 3}, 1.0), ("text", 1.0), (None, 1.0)):
+                k += 1
+                with contextlib.redirect_stdout(io.StringIO()):
+                    q = QuorumSensing(n_agents=1, budget=ATP_Store(budget=100, silent=True), strategy=VotingStrategy.WEIGHTED, silent=True)
+                    v = q._protein_to_vote(ActionProtein(action_type=action, payload=payload, confidence=1.0), q.colony[0])
+                exp_type = {"PERMIT": VoteType.PERMIT, "EXECUTE": VoteType.PERMIT, "BLOCK": VoteType.BLOCK, "DEFER": VoteType.DEFER}.get(action, VoteType.ABSTAIN)
+                if v.confidence != want or v.vote_type != exp_type:
+                    return {"confirmed": True, "found_by": f"ballot conversion table ({k} cases)",
+                            "observed": f"_protein_to_vote(action={action!r}, payload={payload!r}) -> {v.vote_type.name} with confidence {v.confidence} (stated: {want}, type {exp_type.name})"}
     n, bad, seen = c06_bounded.search(3)
     if bad is None:
         return {"confirmed": False, "observed": f"no unlisted violation among {n} ballots (electorates 1..3)"}
